@@ -41,8 +41,9 @@ DEV_DEST = "dest_backing_overwritten"
 DEV_GUARD = "guard_main_graph_only"
 
 # kind -> (graph, backing, nbytes, tensor class); must agree with ExternalSave.tla!K (checked in run())
+ALSO_INPUT = {"uninitIn", "subUIn"}     # uninitialized AND listed in the inputs of their graph
 KINDS = {
-    "uninit": ("main", "none", 0), "subU": ("sub", "none", 0), "huge": ("main", "mem", 1048584),
+    "uninit": ("main", "none", 0), "subU": ("sub", "none", 0), "uninitIn": ("main", "none", 0), "subUIn": ("sub", "none", 0), "huge": ("main", "mem", 1048584),
     "proto": ("main", "mem", 512), "mid": ("main", "mem", 400), "big": ("main", "mem", 264),
     "subB": ("sub", "mem", 320), "extB": ("main", "other", 400), "dstB": ("main", "dest", 288),
     "edge": ("main", "mem", 256), "small": ("main", "mem", 8), "scalar": ("main", "mem", 8),
@@ -287,11 +288,11 @@ def build(case, root, rng):
     # then-branch of its own If (optionally nested one level deeper)
     x = ir.Value(name="x", type=ir.TensorType(ir.DataType.FLOAT), shape=ir.Shape([2]))
     cond = ir.Value(name="cond", type=ir.TensorType(ir.DataType.BOOL), shape=ir.Shape([]))
-    nodes, outs, main_inits = [], [], []
+    nodes, outs, main_inits, extra_inputs = [], [], [], []
 
-    def branch(i, v, deep):
+    def branch(i, v, deep, as_input):
         idn = ir.node("Identity", [v], outputs=[ir.Value(name=f"s{i}")], name=f"sid{i}")
-        inner = ir.Graph([], [idn.outputs[0]], nodes=[idn], initializers=[v], name=f"then{i}")
+        inner = ir.Graph([v] if as_input else [], [idn.outputs[0]], nodes=[idn], initializers=[v], name=f"then{i}")
         cn = ir.node("Constant", [], attributes={"value_float": 1.5}, outputs=[ir.Value(name=f"e{i}")], name=f"ec{i}")
         els = ir.Graph([], [cn.outputs[0]], nodes=[cn], name=f"else{i}")
         ifn = ir.node("If", [cond], attributes={"then_branch": inner, "else_branch": els},
@@ -308,12 +309,14 @@ def build(case, root, rng):
         if KINDS[kind][0] == "main":
             n = ir.node("Identity", [v], outputs=[ir.Value(name=f"o{i}")], name=f"id{i}")
             main_inits.append(v)
+            if kind in ALSO_INPUT or (KINDS[kind][1] == "mem" and rng.random() < 0.25):
+                extra_inputs.append(v)     # keep-initializers-as-inputs style
         else:
-            n = branch(i, v, rng.random() < 0.4)
+            n = branch(i, v, rng.random() < 0.4, kind in ALSO_INPUT or (KINDS[kind][1] == "mem" and rng.random() < 0.25))
         nodes.append(n)
         outs.append(n.outputs[0])
     xn = ir.node("Neg", [x], outputs=[ir.Value(name="y")], name="neg")
-    graph = ir.Graph([x, cond], [xn.outputs[0]] + outs, nodes=[xn] + nodes, initializers=main_inits,
+    graph = ir.Graph([x, cond] + extra_inputs, [xn.outputs[0]] + outs, nodes=[xn] + nodes, initializers=main_inits,
                      opset_imports={"": 18}, name="g")
     model = ir.Model(graph, ir_version=9, producer_name="verif-c20")
     return {"model": model, "vals": vals, "origs": origs, "obytes": obytes, "style": style, "mname": mname, "dname": dname,
@@ -563,7 +566,7 @@ def judge(case, obs):
     inits = case["inits"]
     kinds = [KINDS[k] for k in inits]
     uninit = [i for i, k in enumerate(kinds) if k[1] == "none"]
-    only_sub_uninit = bool(uninit) and all(inits[i] == "subU" for i in uninit)
+    only_sub_uninit = bool(uninit) and all(kinds[i][0] == "sub" for i in uninit)
     has_dest = any(k[1] == "dest" for k in kinds)
     out = obs["outcome"]
     desc = f"model {inits} verbose={case['verbose']} preexisting={case['stale']} fault k={case['k']}/{case['mode']}"
@@ -773,7 +776,7 @@ def run(ctx: core.Ctx):
             if f == DEV_DEST:
                 what = tuple(sorted({f"{k}:{a}" for k, a in zip(c["inits"], obs["after"]) if a != "same"}))
             elif f == DEV_GUARD:
-                what = ("subU",)
+                what = ("uninitialized in a subgraph",)
             else:
                 what = tuple(re.sub(r"#\d+ |\(outcome [^)]*\)|\[.*?\]", "", re.sub(r"\d+", "N", t.split(";")[0]))[:80] for t in texts)
             sig = (f, what, obs["outcome"].split(":")[0])
@@ -800,7 +803,7 @@ def run(ctx: core.Ctx):
     ctx.set("fault_points_by_call", {" ".join(k): v for k, v in sorted(faults_fired.items())})
     ctx.set("exhaustive", True)
     ctx.set("rule", "cases = final states of ExternalSave.tla with the listed deviations on: every multiset of <= MaxInits initializers "
-                    "over the 15-kind table (quick: 3, the third from a 6-kind menu; thorough: 4, plus 5 with the third and later from the 6-kind menu) x verbose x pre-existing files x every fault point k of the "
+                    "over the 17-kind table (quick: 3, the third from a 6-kind menu; thorough: 4, plus 5 with the third and later from the 6-kind menu) x verbose x pre-existing files x every fault point k of the "
                     "file-system call sequence x {clean, short write}; all are replayed. non-trivial = the injected fault really fired "
                     "at call k, or the model was refused, or the save succeeded with at least one tensor written to the data file; "
                     "distinct by (model, verbose, pre-existing, k, mode)")
